@@ -75,6 +75,14 @@ def plan(tier, seed, acts_extra=(), lvl2=True, nonsq=False):
     pdb = [L["Sy22d"], L["Hc22d"], catalog.dense([[2]], "f64"), catalog.dense([[5]], "f64"), L["Sy33d"]]
     runs.append(dict(seeds=pdb, operands=pdb[:4], small=[pdb[2], pdb[0], pdb[3]], acts={"BlockDiag3", "linalg"}
                      | set(acts_extra), lvl=1, dim=8, ebound=12))
+    # a scalar operator followed by two more factors (what (c * M) @ N flattens to), and three Kronecker factors of
+    # three different sizes in every order (dimension 6)
+    sc3 = [L[n] for n in ["Sc2n", "Sc2c", "Sc2"]]
+    runs.append(dict(seeds=sc3, operands=ops2[:3], small=[L["D22s"], L["Dg2n"], L["TL22"]],
+                     acts={"Product3", "linalg"} | set(acts_extra), lvl=1, dim=4, ebound=40))
+    k3 = [L["Sy22"], catalog.dense([[1]], "f64"), L["Sy33"], catalog.dense([[2]], "f64")]
+    runs.append(dict(seeds=k3, operands=k3[:1], small=[k3[1], k3[2], k3[0]],
+                     acts={"Kronecker3", "linalg"} | set(acts_extra), lvl=1, dim=8, ebound=40))
     if nonsq:
         # square trees assembled from non-square factors (Kronecker(2x3, 3x2), BlockDiag(1x3, 3x1), products, sums)
         ns = [L[n] for n in ["D23", "D32", "D13", "D31", "D32c", "D22", "Dg2", "I2"]]
